@@ -553,6 +553,8 @@ def install_complex(ex):
         a, b, c, d_ = args
         d = ex.dom
         den = d.add(d.mul(c, c), d.mul(d_, d_))
+        if ex.record_divs and isinstance(den, Term):
+            st.divs.append((list(st.pc), den, '__divdc3 (complex division)'))
         return [d.div(d.add(d.mul(a, c), d.mul(b, d_)), den), d.div(d.sub(d.mul(b, c), d.mul(a, d_)), den)]
     I['__divdc3'] = divdc3
 
